@@ -262,11 +262,13 @@ impl Envelope {
         self
             .assertions_with_predicate(known_values::HAS_RECIPIENT)
             .into_iter()
+            // The assertion may carry assertions of its own (e.g. salt), in
+            // which case it is a node whose subject is the assertion.
             .filter(|assertion| {
-                !assertion.as_object().unwrap().is_obscured()
+                !assertion.subject().as_object().unwrap().is_obscured()
             })
             .map(|assertion| {
-                assertion.as_object().unwrap().extract_subject::<SealedMessage>()
+                assertion.subject().as_object().unwrap().extract_subject::<SealedMessage>()
             })
             .collect()
     }
